@@ -152,6 +152,17 @@ def _r2(ctx, md):
 
     saves = [n.id for n in g.nodes if has_call(n, {"save_checkpoint"})]
     flushes = {n.id for n in g.nodes if has_call(n, {"_flush_all"})}
+    # a save_checkpoint that flushes on every path before it builds / publishes the checkpoint is itself a flush point
+    sc = md.func("Molecular_Dynamics_Basic.save_checkpoint")
+    gs = build_cfg(sc)
+    inner_flush = {n.id for n in gs.nodes if n.kind == "stmt" and any(callee_attr(c) == "_flush_all" for c in calls_in(n.stmt))}
+    publish = [n.id for n in gs.nodes if n.kind == "stmt" and any(callee_attr(c) in ("_save_checkpoint_and_report", "_atomic_save_checkpoint", "_build_checkpoint_base", "save")
+                                                                  for c in calls_in(n.stmt))]
+    if inner_flush and publish and all(gs.must_pass(gs.entry, p_, inner_flush) for p_ in publish):
+        flushes |= set(saves)
+        self_flushing = True
+    else:
+        self_flushing = False
     loops = [n.id for n in g.nodes if n.kind == "for" and "step_offset" in norm(n.expr)]
     if not saves or not loops:
         raise AnalysisError("run(): step loop or save_checkpoint call not found")
@@ -165,6 +176,9 @@ def _r2(ctx, md):
                   "save_checkpoint can be reached in an iteration without _flush_all: the checkpoint may claim rows that are not on disk")
         for w in writes:
             if w == s:
+                continue
+            if self_flushing:
+                ctx.ok("R2", "Molecular_Dynamics_Basic.run", f"output event `{short(g.nodes[w].stmt, 50)}`: save_checkpoint flushes before it publishes")
                 continue
             # from an output write, reach save without passing a flush and without starting a new iteration
             reach = g.reachable(w, avoid=flushes | {head}, labels_avoid={"exc"})
